@@ -16,50 +16,87 @@ import (
 // request path are stored to only while their object is still private to its
 // constructor.
 func ruleImmutableAfterConstruction(c *Ctx) {
-	table := []struct {
-		pkg, typ string
-		fields   []string
-	}{
-		{"cache", "httpCache", []string{"key", "store", "mu"}},
-		{"cache", "httpLRUCache", []string{"cache", "mu"}},
-		{"cache", "dispatcher", []string{"zoneSize", "hitForPass", "list", "store"}},
-		{"upstream", "upstreamServer", []string{"servers", "Proxy", "HTTPUpstream", "Option"}},
-		{"compress", "compressSrv", []string{"levels"}},
-		{"server", "server", []string{"mutex", "logFormat", "addr"}},
-		{"location", "Locations", []string{"mutex"}},
-		{"location", "Location", []string{"Name", "Upstream", "Prefixes", "Rewrites", "Hosts", "ProxyTimeout", "ResponseHeader", "RequestHeader", "Query", "URLRewriter"}},
+	// every struct type of the request-path packages that carries no lock of its own is
+	// written only while the object is still private to the function that built it;
+	// types with a lock are the lockset's business, the response type has its own rule
+	hasLock := func(st *types.Struct) bool {
+		for i := 0; i < st.NumFields(); i++ {
+			t := st.Field(i).Type()
+			if p, ok := t.Underlying().(*types.Pointer); ok {
+				t = p.Elem()
+			}
+			if n, ok := t.(*types.Named); ok && n.Obj().Pkg() != nil && n.Obj().Pkg().Path() == "sync" && (n.Obj().Name() == "Mutex" || n.Obj().Name() == "RWMutex") {
+				return true
+			}
+		}
+		return false
+	}
+	inScope := func(fv *types.Var) (string, bool) {
+		if fv.Pkg() == nil {
+			return "", false
+		}
+		switch strings.TrimPrefix(fv.Pkg().Path(), pikeMod+"/") {
+		case "cache", "upstream", "compress", "server", "location", "store":
+			return strings.TrimPrefix(fv.Pkg().Path(), pikeMod+"/"), true
+		}
+		return "", false
+	}
+	// unpublished: the object is an element of a slice that is a parameter or was made here
+	unpublished := func(v ssa.Value) bool {
+		for d := 0; d < 4; d++ {
+			switch x := v.(type) {
+			case *ssa.IndexAddr:
+				switch y := x.X.(type) {
+				case *ssa.Parameter, *ssa.MakeSlice, *ssa.Slice, *ssa.Alloc:
+					return true
+				case *ssa.Phi, *ssa.Call:
+					_ = y
+					return true
+				}
+				return false
+			case *ssa.FieldAddr:
+				v = x.X
+			default:
+				return false
+			}
+		}
+		return false
 	}
 	n := 0
 	bad := []string{}
-	for _, t := range table {
-		for _, fname := range t.fields {
-			fv := c.P.StructField(t.pkg, t.typ, fname)
-			if fv == nil {
-				bad = append(bad, fmt.Sprintf("field %s.%s.%s not found", t.pkg, t.typ, fname))
-				continue
-			}
-			for _, f := range c.P.allFuncs {
-				for _, b := range f.Blocks {
-					for _, in := range b.Instrs {
-						st, ok := in.(*ssa.Store)
-						if !ok {
-							continue
-						}
-						fa, ok := st.Addr.(*ssa.FieldAddr)
-						if !ok || fieldOf(fa.X.Type(), fa.Field) != fv {
-							continue
-						}
-						n++
-						if isFreshBase(fa.X, c.P, 0) {
-							continue
-						}
-						// Location: filled in Set() on the elements of the slice just received, before the list is published
-						if t.typ == "Location" && (f.Name() == "Set" || f.Name() == "convertConfigs") {
-							continue
-						}
-						bad = append(bad, fmt.Sprintf("%s: %s writes %s.%s on an object that may already be shared (it is read without a lock on the request path)", c.P.pos(st.Pos()), funcName(f), t.typ, fname))
-					}
+	for _, f := range c.P.allFuncs {
+		for _, b := range f.Blocks {
+			for _, in := range b.Instrs {
+				st, ok := in.(*ssa.Store)
+				if !ok {
+					continue
 				}
+				fa, ok := st.Addr.(*ssa.FieldAddr)
+				if !ok {
+					continue
+				}
+				fv := fieldOf(fa.X.Type(), fa.Field)
+				pkg, ok := inScope(fv)
+				if !ok {
+					continue
+				}
+				pt, _ := fa.X.Type().Underlying().(*types.Pointer)
+				if pt == nil {
+					continue
+				}
+				named, _ := pt.Elem().(*types.Named)
+				stt, _ := pt.Elem().Underlying().(*types.Struct)
+				if named == nil || stt == nil || hasLock(stt) {
+					continue
+				}
+				if pkg == "cache" && named.Obj().Name() == "HTTPResponse" {
+					continue // published-response-immutable
+				}
+				n++
+				if isFreshBase(fa.X, c.P, 0) || unpublished(fa.X) || paramAlwaysFresh(c.P, fa.X, 0) {
+					continue
+				}
+				bad = append(bad, fmt.Sprintf("%s: %s writes %s.%s on an object that may already be shared (the type has no lock: it is read without synchronisation)", c.P.pos(st.Pos()), funcName(f), named.Obj().Name(), fv.Name()))
 			}
 		}
 	}
@@ -331,4 +368,48 @@ func registriesTypedCore(p *Program) (int, []string) {
 		}
 	}
 	return n, bad
+}
+
+// paramAlwaysFresh: v is a parameter of an unexported function that every call
+// site hands an object still private to the caller (a constructor's helper).
+func paramAlwaysFresh(p *Program, v ssa.Value, d int) bool {
+	prm, ok := v.(*ssa.Parameter)
+	if !ok || d > 2 {
+		return false
+	}
+	fn := prm.Parent()
+	if fn.Object() == nil || fn.Object().Exported() || fn.Parent() != nil {
+		return false
+	}
+	idx := -1
+	for i, q := range fn.Params {
+		if q == prm {
+			idx = i
+		}
+	}
+	sites := 0
+	for _, g := range p.allFuncs {
+		for _, b := range g.Blocks {
+			for _, in := range b.Instrs {
+				for _, op := range in.Operands(nil) {
+					if *op != ssa.Value(fn) {
+						continue
+					}
+					ci, ok := in.(ssa.CallInstruction)
+					if !ok || ci.Common().Value != fn || idx >= len(ci.Common().Args) {
+						return false
+					}
+					if _, isGo := in.(*ssa.Go); isGo {
+						return false
+					}
+					sites++
+					a := ci.Common().Args[idx]
+					if !isFreshBase(a, p, 0) && !paramAlwaysFresh(p, a, d+1) {
+						return false
+					}
+				}
+			}
+		}
+	}
+	return sites > 0
 }
